@@ -5,8 +5,24 @@
   assignment);
 * `RepositoryProps.chunkify`: the per-repository `chunker_params` reach the adapter whenever the repository is encrypted.
 Anything else than the recognised shapes yields `false`; the bridge lemmas in Lemmas/ChunkerLocal.lean then stop compiling.
+
+* block sizes (`harness/impl/c11_blocks.py`, loaded by path so that extractor and generators read the same thing):
+  `sizeConstants` = every integer constant (>= 2) of adapters.py / repository.py / src/adapters.cpp — the values the harness
+  derives its input-block sizes from; `adapterBlockThresholds` = those constants that `gclmulchunker.__call__` (or a method it
+  hands blocks to) compares with / slices by / steps over a value derived from its input blocks.  The model's `feed` appends
+  every block whole, which is the code's behaviour iff that list is empty (`C11.adapter_takes_blocks_whole`).
 """
 import ast
+import importlib.util
+from pathlib import Path
+
+
+def _blocks_helper():
+    f = Path(__file__).resolve().parent.parent.parent / 'harness' / 'impl' / 'c11_blocks.py'
+    spec = importlib.util.spec_from_file_location('c11_blocks_for_extractor', f)
+    mod = importlib.util.module_from_spec(spec)
+    spec.loader.exec_module(mod)
+    return mod
 
 
 def section(ctx):
@@ -37,3 +53,15 @@ def section(ctx):
         if not key_ok:
             ctx.notes['chunkify'] = f'shape not recognised: {assigns} / {rets}'
     ctx.emit(f'def chunkifyPassesKey : Bool := {"true" if key_ok else "false"}')
+    # --- block sizes
+    blocks = _blocks_helper()
+    consts = blocks.size_constants(ctx.REPO)
+    ctx.emit('def sizeConstants : List Nat := [' + ', '.join(str(c['value']) for c in consts) + ']')
+    thr, tnotes = blocks.block_thresholds(ctx.REPO / 'replicat' / 'utils' / 'adapters.py')
+    if thr is None:
+        ctx.emit('opaque adapterBlockThresholds : List Nat')
+        ctx.notes['adapter.block_thresholds'] = f'not analysed: {tnotes}'
+    else:
+        ctx.emit('def adapterBlockThresholds : List Nat := [' + ', '.join(map(str, thr)) + ']')
+        if thr:
+            ctx.notes['adapter.block_thresholds'] = f'{thr}: the adapter loop treats input blocks by size: {tnotes}'
